@@ -124,8 +124,9 @@ def make_pyvis_net(
         for i, vert in enumerate(verts):
             for edge in vert.links:
 
-                # only draw arrows when we're at the *from* node
-                if vert is edge.v2:
+                # only draw arrows when we're at the *from* node (which, for a
+                # self-loop, is also the *to* node)
+                if (vert is edge.v2) and (vert is not edge.v1):
                     continue
 
                 other = edge.other(vert)
